@@ -110,6 +110,18 @@ func (r *R) Replaying() bool    { return r.replayCase != "" }
 func (r *R) ReplayCase() string { return r.replayCase }
 
 // Pick returns q in the quick tier and t in the thorough tier.
+// Cases is Pick for the number of cases of a family: the thorough figure is multiplied by the
+// property's thorough scale (plan.json "thorough_scale", passed in VERIF_THOROUGH_SCALE).
+func (r *R) Cases(q, t int) int {
+	if r.Thorough() {
+		if sc := envInt("VERIF_THOROUGH_SCALE", 1); sc > 1 {
+			return t * int(sc)
+		}
+		return t
+	}
+	return q
+}
+
 func (r *R) Pick(q, t int) int {
 	if r.Thorough() {
 		return t
